@@ -447,8 +447,23 @@ def _generate_grid(ctx, R, m, g, init):
         if vl is None or len(vl) != d:
             ctx.ob(R, g.qname, title, False, f"voxel sizes of the grid not found per axis: {nf(vs)[:100]}", g.node)
             continue
-        wrong = [k for k in range(d) if vl[k] is not h[k]]
-        known = all(any(x is y for y in h) for x in vl)
+        # compared as Laurent polynomials, with the image's voxel size written out as dimensions / num_voxels (Image.voxel_size, C01.b)
+        def canon(t):
+            p_ = _poly_of(t)
+            for k in range(d):
+                p_ = p_.subst(f"h{k}", Poly.atom(f"D{k}") / Poly.atom(f"N{k}"))
+            return p_
+        try:
+            got_p = [canon(x) for x in vl]
+            want_p = [canon(x) for x in h]
+        except NotPolynomial as e:
+            ctx.ob(R, g.qname, title, False, f"voxel sizes of the grid not found in polynomial form: {e}", g.node)
+            continue
+        wrong = [k for k in range(d) if got_p[k] != want_p[k]]
+        known = all(any(x == y for y in want_p) for x in got_p)   # a permutation of the image's sizes
+        if wrong and not known and ok_shape:
+            ctx.ob(R, g.qname, title, False, f"grid voxel sizes {[nf(x)[:40] for x in vl]} not found to be the image's {[nf(x) for x in h]}", g.node)
+            continue
         ctx.ob(R, g.qname, title, ok_shape and not wrong,
                (f"grid shape is {nf(shape_arg)[:60]}; " if not ok_shape else "") + f"grid voxel sizes per matrix axis are {[nf(x) for x in vl]}, the image has {[nf(x) for x in h]}"
                + (" -- axes are permuted: lengths, face areas and costs along those axes are wrong" if known and wrong else ""), g.node, evidence=(known and ok_shape) or (not ok_shape and sh is not None))
